@@ -257,6 +257,29 @@ def run_shard(item):
                     o = case("variable-in-object", tstr, "query($e: %s) { %s(x: %s) }" % (doc.type_to_str(fdef.type), g, S.value_str(obj)),
                              {"e": v[k0]})
                     obs_group.append(("variable-in-object", o))
+            # 3d/4d. the nested variable has no runtime value while *another* variable of the request has one (and while none has):
+            # the field is then absent / defaulted (object) or null-or-invalid (list, DC3) -- the same in both requests
+            if valid_value and core[0] == "named" and base in ("P", "Q", "R") and isinstance(v, dict) and v:
+                td = schema.type(base)
+                k0 = next(iter(v))
+                fdef = td.field(k0)
+                rest = [(k, inputs.to_literal(schema, td.field(k).type, x)) for k, x in v.items() if k != k0]
+                if fdef is not None and all(r is not None for _, r in rest) and fdef.type[0] != "nn":
+                    obj = ObjV(tuple([(k0, Var("e"))] + rest))
+                    text = "query($e: %s, $w: Int) { %s(x: %s) k @da(i: $w) }" % (doc.type_to_str(fdef.type), g, S.value_str(obj))
+                    oa = case("absent-variable-in-object|no-other-variable", tstr, text, {})
+                    ob = case("absent-variable-in-object|beside-a-provided-variable", tstr, text, {"w": 5})
+                    if oa is not None and ob is not None and oa != ob:
+                        viol("spellings-disagree", "absent-nested-variable-depends-on-other-variables", tstr, text, {"w": 5}, ob, oa)
+            if valid_value and core[0] == "list" and core[1][0] != "nn" and isinstance(v, list) and len(v) == 2 and not dc1 and v[0] is not None:
+                inner = core[1]
+                lit0 = inputs.to_literal(schema, inner, v[0])
+                if lit0 is not None:
+                    text = "query($e: %s, $w: Int) { %s(x: [%s, $e]) k @da(i: $w) }" % (doc.type_to_str(inner), g, S.value_str(lit0))
+                    oa = case("absent-variable-in-list|no-other-variable", tstr, text, {})
+                    ob = case("absent-variable-in-list|beside-a-provided-variable", tstr, text, {"w": 5})
+                    if oa is not None and ob is not None and oa != ob:
+                        viol("spellings-disagree", "absent-nested-variable-depends-on-other-variables", tstr, text, {"w": 5}, ob, oa)
             # 4c. a single (un-bracketed) object literal holding a variable, given where a list of input objects is declared
             if (valid_value and core[0] == "list" and core[1] in (("named", base), ("nn", ("named", base))) and base in ("P", "Q", "R")
                     and isinstance(v, dict) and v):
